@@ -150,17 +150,17 @@ func (b Bound) Line() string {
 // ---------- filters ----------
 
 type Filter struct {
-	Kind   string
-	Flag   bool
-	Subs   []*Filter
+	Kind    string
+	Flag    bool
+	Subs    []*Filter
 	P, T, F *Filter
-	Rx     *Rx
-	Fam    string
-	SB, EB Bound
-	S, E   int64
-	N      int64
-	Label  string
-	PMilli int64
+	Rx      *Rx
+	Fam     string
+	SB, EB  Bound
+	S, E    int64
+	N       int64
+	Label   string
+	PMilli  int64
 }
 
 func b2i(b bool) int {
@@ -361,11 +361,11 @@ func mutsProto(ms []Mut) []*btpb.Mutation {
 // ---------- GC rules ----------
 
 type Rule struct {
-	Kind    string // none v a u o
-	N       int64
-	Sec     int64
-	Nanos   int32
-	Subs    []*Rule
+	Kind  string // none v a u o
+	N     int64
+	Sec   int64
+	Nanos int32
+	Subs  []*Rule
 }
 
 func (r *Rule) Line() string {
